@@ -62,6 +62,8 @@ def run(module, cfg=None, workers=1, env=None, timeout=1800, extra=(), simulate=
     e = dict(os.environ)
     if env:
         e.update({k: str(v) for k, v in env.items()})
+    # deep RECURSIVE operators over long traces need a roomy Java thread stack (StackOverflowError otherwise)
+    e["JAVA_TOOL_OPTIONS"] = (e.get("JAVA_TOOL_OPTIONS", "") + " -Xss512m").strip()
     if depth_first:
         e["JAVA_TOOL_OPTIONS"] = (e.get("JAVA_TOOL_OPTIONS", "") + " -Dtlc2.tool.queue.IStateQueue=StateDeque").strip()
     t0 = time.time()
@@ -90,7 +92,8 @@ def run_ok(module, cfg=None, **kw):
             bad = marker
             break
     if bad or (not r.no_error and not r.violated):
-        tail = "\n".join(r.out.splitlines()[-40:])
+        errs = [ln for ln in r.out.splitlines() if ln.startswith("Error") or "line " in ln and "col " in ln and "module" in ln][:12]
+        tail = "\n".join(errs + ["..."] + r.out.splitlines()[-25:])
         raise TlcError(f"TLC failed on {module}/{cfg or module} ({bad}):\n{tail}")
     return r
 
